@@ -602,6 +602,26 @@ func c05Run(u *vfUnit) {
 			u.Inconclusive("connect: %v", err)
 			return
 		}
+		if si == 0 && !relative {
+			// objects a client cannot create through SFTP: devices of the host (read-only comparisons)
+			for _, hp := range []string{"/dev/null", "/dev/zero", "/dev/tty", "/dev", "/dev/stdin", "/proc/self/exe", "/dev/shm"} {
+				for _, lst := range []bool{false, true} {
+					var wi, gi os.FileInfo
+					var we, ge error
+					if lst {
+						wi, we = os.Lstat(hp)
+						gi, ge = sess.C.Lstat(hp)
+					} else {
+						wi, we = os.Stat(hp)
+						gi, ge = sess.C.Stat(hp)
+					}
+					u.Count("host_object_stats", 1)
+					if c05Category(we) != c05Category(ge) || (we == nil && (wi.Mode() != gi.Mode() || wi.Name() != gi.Name())) {
+						u.Violation("value:Stat-host-object", fmt.Sprintf("Stat/Lstat(lstat=%v) of %s: package os says (%v, %v), the client (%v, %v)", lst, hp, c05InfoStr(wi), we, c05InfoStr(gi), ge), nil)
+					}
+				}
+			}
+		}
 		steps := c05Gen(r, 5+r.Intn(56), unpriv, relative)
 		u.Count("sequences", 1)
 		var history []string
